@@ -72,6 +72,13 @@ def cases(rng, tier):
 	yield ('acc', 'Accept', b'application/json;q=0.001, text/html;q=0')
 	yield ('acc', 'Accept', b'a/b;q=abc')
 	yield ('acc', 'Accept-Language', b'de;q=0.5x, en')
+	# elements whose text occurs inside an earlier one, parameters whose names sort behind "q"
+	yield ('acc', 'Accept', b'text/html;level=1;q=0.7, text/html')
+	yield ('acc', 'Accept-Language', b'en-US, en;q=0.8, e')
+	yield ('acc', 'Accept-Encoding', b'x-gzip, gzip;q=0.5, zip')
+	yield ('acc', 'Accept-Charset', b'iso-8859-15, iso-8859-1;q=0.3')
+	yield ('acc', 'Accept', b'application/json;version=2;q=0.5, text/html;title=x;q=0.9, a/b;schema=s')
+	yield ('acc', 'TE', b'trailers, deflate;q=0.5, trailer')
 	n = 6000 if tier == 'thorough' else 1500
 	for _ in range(n):
 		name = rng.choice(NAMES)
@@ -209,6 +216,31 @@ def oracle(case):
 		els3 = h2.elements(name)
 		if sorted(canon(e) for e in els3) != got or [e.quality for e in els3] != quals:
 			return {'what': 'the elements sent as %d field lines (names in different letter case) come back as %r' % (len(parts), [bytes(e) for e in els3]), 'name': name, 'value': value.decode('latin-1'), 'finding': None}
+	# the same field put together by the application, element by element: append(name, text) and append(name, value, **parameters)
+	if len(parts) >= 1:
+		from httoop import Headers
+		try:
+			h4 = Headers()
+			for part in parts:
+				h4.append(name, part.strip())
+			els4 = h4.elements(name)
+			if sorted(canon(e) for e in els4) != got or [e.quality for e in els4] != quals:
+				return {'what': 'the field built with append(name, element) for each element reads back as %r' % ([bytes(e) for e in els4],), 'name': name, 'value': value.decode('latin-1'), 'stored': repr(h4.get(name)), 'finding': None}
+			tx = lambda x: x if isinstance(x, str) else x.decode('latin-1')
+			simple = all(tx(k).isidentifier() and isinstance(v, (str, bytes)) and tx(v).isalnum() for e in els for k, v in e.params.items() if tx(k) != 'q')
+			if simple and all(e.value and u';' not in e.value and u',' not in e.value for e in els):
+				h5 = Headers()
+				for e in (Element.parse(x) for x in parts):
+					kw = {tx(k): tx(v) for k, v in e.params.items() if tx(k) != 'q'}
+					qv = [tx(v) for k, v in e.params.items() if tx(k) == 'q']
+					if qv:
+						kw['q'] = qv[0]      # the weight ends the media range parameters
+					h5.append(name, e.value, **kw)
+				els5 = h5.elements(name)
+				if sorted(canon(e) for e in els5) != got or [e.quality for e in els5] != quals:
+					return {'what': 'the field built with append(name, value, **parameters) for each element reads back as %r' % ([bytes(e) for e in els5],), 'name': name, 'value': value.decode('latin-1'), 'stored': repr(h5.get(name)), 'finding': None}
+		except Exception as ex:
+			return {'what': 'building the field with append() and reading it raised %s: %s' % (exc_name(ex), ex), 'name': name, 'value': value.decode('latin-1'), 'finding': None}
 	# independence of the order sent: reverse and rotate
 	for alt in (parts[::-1], parts[1:] + parts[:1]):
 		els2 = impl_elements(name, b', '.join(alt))
